@@ -7,6 +7,7 @@ import (
 	"io"
 	"math"
 	"math/big"
+	"os"
 	"strings"
 	"testing"
 
@@ -43,7 +44,14 @@ type C19Read struct {
 	// TransientRead: the io.Reader fails exactly once at FailAt and then goes on
 	// delivering the rest of the document.
 	TransientRead bool `json:"transient_read,omitempty"`
+	// ErrKind selects the error value the io.Reader fails with (c19ReadErrs):
+	// whatever it is, it is a failure, not an end of data.
+	ErrKind int `json:"err_kind,omitempty"`
 }
+
+var c19ReadErrs = []error{errInjected, io.ErrUnexpectedEOF, io.ErrClosedPipe, os.ErrDeadlineExceeded, io.ErrNoProgress, fmt.Errorf("read: %w", io.ErrUnexpectedEOF)}
+
+func (c C19Read) failure() error { return c19ReadErrs[c.ErrKind%len(c19ReadErrs)] }
 
 type planReader struct {
 	c     C19Read
@@ -64,7 +72,7 @@ func (p *planReader) Read(b []byte) (int, error) {
 	}
 	if faulty && p.pos >= p.c.FailAt {
 		p.fired = true
-		return 0, errInjected
+		return 0, p.c.failure()
 	}
 	if p.pos >= len(p.c.Doc) {
 		return 0, io.EOF
@@ -89,7 +97,7 @@ func (p *planReader) Read(b []byte) (int, error) {
 	p.pos += n
 	if faulty && p.pos >= p.c.FailAt && p.c.FailWithData {
 		p.fired = true
-		return n, errInjected
+		return n, p.c.failure()
 	}
 	if p.pos >= len(p.c.Doc) && p.c.EOFWithData && p.c.FailAt < 0 {
 		return n, io.EOF
@@ -256,7 +264,7 @@ func shallowClass(c C19Read, classes []string) []string {
 }
 
 func planString(c C19Read) string {
-	return fmt.Sprintf("chunks=%v eofWithData=%v zeroEvery=%d failAt=%d failWithData=%v shallow=%v transientRead=%v", clipInts(c.Chunks, 12), c.EOFWithData, c.ZeroEvery, c.FailAt, c.FailWithData, c.Shallow, c.TransientRead)
+	return fmt.Sprintf("chunks=%v eofWithData=%v zeroEvery=%d failAt=%d failWithData=%v shallow=%v transientRead=%v", clipInts(c.Chunks, 12), c.EOFWithData, c.ZeroEvery, c.FailAt, c.FailWithData, c.Shallow, c.TransientRead) + map[bool]string{true: fmt.Sprintf(" error=%q", c.failure()), false: ""}[c.ErrKind != 0]
 }
 
 func clipInts(x []int, n int) []int {
@@ -476,6 +484,9 @@ func genC19ReadFault(t *rapid.T) C19Read {
 	c.FailWithData = gen.Chance(t, 40)
 	c.Shallow = gen.Chance(t, 30)
 	c.TransientRead = gen.Chance(t, 30)
+	if gen.Chance(t, 40) {
+		c.ErrKind = gen.Intn(t, len(c19ReadErrs))
+	}
 	if gen.Chance(t, 30) {
 		k := gen.Range(t, 1, 4)
 		for i := 0; i < k; i++ {
@@ -824,6 +835,10 @@ func TestC19(t *testing.T) {
 					if !yield(C19Read{Doc: d, FailAt: k, FailWithData: wd, Shallow: sh, TransientRead: tr}) || !yield(C19Read{Doc: d, FailAt: k, FailWithData: wd, Chunks: []int{1}, Shallow: sh, TransientRead: tr}) {
 						return
 					}
+					// the same with error values a reader might mistake for an end of data
+					if !yield(C19Read{Doc: d, FailAt: k, FailWithData: wd, Shallow: sh, TransientRead: tr, ErrKind: 1 + (k+m)%(len(c19ReadErrs)-1)}) {
+						return
+					}
 				}
 			}
 		}
@@ -858,6 +873,15 @@ func TestC19(t *testing.T) {
 		for _, n := range []int{65537, 70000, 65536 + 4096} {
 			for _, tag := range []byte{0x8E, 0xAE} {
 				d := append(append(append([]byte{}, refbin.IVM...), 0x21, 0x01), c19BigValue(tag, n)...)
+				if tag == 0xAE {
+					// two lobs above 64 KiB (different content) and a trailing value: what
+					// was returned for the first must survive reading the second
+					second := c19BigValue(0x9E, n+17)
+					for i := len(second) - n - 17; i < len(second); i++ {
+						second[i] = byte('A' + i%7)
+					}
+					d = append(append(d, second...), 0x21, 0x02)
+				}
 				for k := 0; k < 4; k++ {
 					for _, chunks := range [][]int{nil, {4096}, {1 << 20}, {5000, 70000}, {100000}} {
 						if !yield(C19Read{Doc: d, FailAt: -1, Chunks: chunks, EOFWithData: k&1 == 1, Shallow: k&2 == 2}) {
